@@ -185,6 +185,12 @@ Theorem C04_unit_abbrevs_exact : forall (u : unit) (abbrev_sec sec : list Z) (of
 Proof. exact unit_abbrevs_exact. Qed.
 Print Assumptions C04_unit_abbrevs_exact.
 
+(* the executable placement check the driver evaluates implies table_at *)
+Theorem C04_table_at_b_sound : forall (abbrev_sec : list Z) (u : unit),
+  atable_wf (u_table u) = true -> table_at_b abbrev_sec u = true -> table_at abbrev_sec u.
+Proof. exact table_at_b_sound. Qed.
+Print Assumptions C04_table_at_b_sound.
+
 (* ... and fetching the entry at each successive offset from cu_die_offset on yields exactly the pre-order
    flattening of the encoded tree, one null entry closing each sibling list *)
 Theorem C04_dies_flat_exact : forall (u : unit) (pre tail : list Z),
